@@ -262,7 +262,7 @@ func getSpan(place pr.GridLine) int {
 }
 
 func getColumnPlacement(rowPlacement [2]int, columnStart, columnEnd pr.GridLine,
-	columns []pr.GridNames, childrenPositions map[Box]rect, dense bool,
+	columns []pr.GridNames, childrenPositions, lockedPositions map[Box]rect, dense bool,
 ) placement {
 	occupiedColumns := map[int]bool{}
 	for _, rect := range childrenPositions {
@@ -274,58 +274,44 @@ func getColumnPlacement(rowPlacement [2]int, columnStart, columnEnd pr.GridLine,
 			}
 		}
 	}
-	if dense {
-		for x := 0; ; x++ {
-			if occupiedColumns[x] {
-				continue
-			}
-			var pl placement
-			if columnStart.IsAuto() {
-				pl = getPlacement(pr.GridLine{Val: x + 1}, columnEnd, columns)
-			} else {
-				if columnStart.Tag == pr.Span {
-					panic("expected span")
-				}
-				// If the placement contains two spans, remove the one
-				// contributed by the end grid-placement property.
-				// https://drafts.csswg.org/css-grid/#grid-placement-errors
-				span := getSpan(columnStart)
-				pl = getPlacement(columnStart, pr.GridLine{Val: x + 1 + span}, columns)
-			}
-			hasIntersection := false
-			for col := pl[0]; col < pl[0]+pl[1]; col++ {
-				if occupiedColumns[col] {
-					hasIntersection = true
-					break
-				}
-			}
-			if !hasIntersection {
-				return pl
+	// Sparse packing: the item goes past the items previously placed in this row
+	// by this step (lockedPositions), dense packing starts from the first column.
+	first := 0
+	if !dense {
+		for _, rect := range lockedPositions {
+			x, y, width, height := rect.unpack()
+			if intersect(y, height, rowPlacement[0], rowPlacement[1]) && x+width > first {
+				first = x + width
 			}
 		}
-	} else {
-		y := 0
-		for k := range occupiedColumns {
-			if k > y {
-				y = k
-			}
+	}
+	// Earliest line index that does not overlap any occupied grid cell.
+	for x := first; ; x++ {
+		if occupiedColumns[x] {
+			continue
 		}
-		y += 1
+		var pl placement
 		if columnStart.IsAuto() {
-			return getPlacement(pr.GridLine{Val: y + 1}, columnEnd, columns)
+			pl = getPlacement(pr.GridLine{Val: x + 1}, columnEnd, columns)
 		} else {
 			if columnStart.Tag == pr.Span {
 				panic("expected span")
 			}
-			// If the placement contains two spans, remove the one contributed
-			// by the end grid-placement property.
+			// If the placement contains two spans, remove the one
+			// contributed by the end grid-placement property.
 			// https://drafts.csswg.org/css-grid/#grid-placement-errors
-			for endY := y + 1; ; endY++ {
-				placement := getPlacement(columnStart, pr.GridLine{Val: endY + 1}, columns)
-				if placement[0] >= y {
-					return placement
-				}
+			span := getSpan(columnStart)
+			pl = getPlacement(columnStart, pr.GridLine{Val: x + 1 + span}, columns)
+		}
+		hasIntersection := false
+		for col := pl[0]; col < pl[0]+pl[1]; col++ {
+			if occupiedColumns[col] {
+				hasIntersection = true
+				break
 			}
+		}
+		if !hasIntersection {
+			return pl
 		}
 	}
 }
@@ -1000,6 +986,7 @@ func gridLayout(context *layoutContext, box_ Box, bottomSpace pr.Float, skipStac
 	children := make([]Box, len(box.Children))
 	copy(children, box.Children)
 	sort.Slice(children, func(i, j int) bool { return children[i].Box().Style.GetOrder() < children[j].Box().Style.GetOrder() })
+	lockedPositions := map[Box]rect{} // the items placed by this step
 	for _, child := range children {
 		if _, has := childrenPositions[child]; has {
 			continue
@@ -1014,8 +1001,9 @@ func gridLayout(context *layoutContext, box_ Box, bottomSpace pr.Float, skipStac
 		columnStart := child.Box().Style.GetGridColumnStart()
 		columnEnd := child.Box().Style.GetGridColumnEnd()
 		x, width := getColumnPlacement(rowPlacement, columnStart, columnEnd, extractNames(columns),
-			childrenPositions, utils.IsIn(flow, "dense")).unpack()
+			childrenPositions, lockedPositions, utils.IsIn(flow, "dense")).unpack()
 		setPosition(child, rect{x, y, width, height})
+		lockedPositions[child] = rect{x, y, width, height}
 	}
 
 	// 1.3 Determine the columns in range the implicit grid.
